@@ -243,7 +243,13 @@ def check_yaml(case):
     cl = cluster.Cluster(sites)
     cl2 = yaml.load(yaml.dump(cl), Loader=yaml.Loader)
     require(cl2 == cl and hash(cl2) == hash(cl), "Cluster does not survive a YAML round trip")
+    vc = cluster.Cluster(sites, vacancy=True)
+    vc2 = yaml.load(yaml.dump(vc), Loader=yaml.Loader)
+    require(vc2 == vc and hash(vc2) == hash(vc) and vc2 != cl, "vacancy Cluster does not survive a YAML round trip")
     if len(sites) == 2:
+        vts = cluster.Cluster(sites, transition=True, vacancy=True)
+        vts2 = yaml.load(yaml.dump(vts), Loader=yaml.Loader)
+        require(vts2 == vts and hash(vts2) == hash(vts), "vacancy transition-state Cluster does not survive a YAML round trip")
         ts = cluster.Cluster(sites, transition=True)
         ts2 = yaml.load(yaml.dump(ts), Loader=yaml.Loader)
         require(ts2 == ts and hash(ts2) == hash(ts), "transition-state Cluster does not survive a YAML round trip")
